@@ -6,6 +6,7 @@ import FxVerif.Proofs.C14Exec
 import FxVerif.Proofs.C14Sim
 import FxVerif.Proofs.C14SimInit
 import FxVerif.Proofs.C14Inv
+import FxVerif.Proofs.C14InvQ
 /-!
 # C14 — account migration moves everything, once, to the address that authorised it
 
@@ -749,6 +750,105 @@ theorem queues_rewritten_indexes_reachable {s0 : State} (h0 : IdxInv s0) (before
     rw [hr frm a b] at hy; simp [hne] at hy
   · obtain ⟨y, hy⟩ := (hs'.rdst frm (a, b)).mp e
     rw [hr frm a b] at hy; simp [hne] at hy
+
+
+/-! ## the queue invariant of every history, and the queue theorem without hypothesis on the pre-state -/
+
+/-- every operation keeps: each time queue has one slice per completion time, and every element of a slice names a
+record holding an entry that completes at the slice's time -/
+theorem qInv_step {s : State} (h : QInv s) (op : Op) : QInv (step cfg s op).1 := by
+  have keep : ∀ (o : Option State), (∀ s', o = some s' → QInv s') → QInv (ofOpt s o).1 := by
+    intro o ho
+    cases o with
+    | none => exact h
+    | some s' => exact ho s' rfl
+  cases op with
+  | send x y d n =>
+    simp only [step]
+    apply keep
+    intro s' hs
+    cases hb : sendUnlocked s.bal (lockedOf s x d) x y d n <;> simp [hb] at hs
+    subst hs; exact qInv_of_fields h rfl rfl rfl rfl
+  | mint x d n => exact qInv_of_fields h rfl rfl rfl rfl
+  | delegate d v amt rw => exact keep _ (fun s' hs => h.frame (qframe_delegate hs))
+  | undelegate d v amt rw => exact keep _ (fun s' hs => qInv_undelegate h hs)
+  | redelegate d x y amt r1 r2 => exact keep _ (fun s' hs => qInv_redelegate h hs)
+  | withdraw d v rw => exact keep _ (fun s' hs => h.frame (qframe_withdraw hs))
+  | setWithdraw d w => exact qInv_of_fields h rfl rfl rfl rfl
+  | submit x dep =>
+    refine keep _ (fun s' hs => ?_)
+    unfold submit at hs
+    split at hs
+    · cases hs
+    · cases hs; exact qInv_of_fields h rfl rfl rfl rfl
+  | deposit x id amt =>
+    refine keep _ (fun s' hs => ?_)
+    unfold deposit at hs
+    split at hs
+    · cases hs
+    · split at hs
+      · cases hs
+      · split at hs
+        · cases hs
+        · cases hs; exact qInv_of_fields h rfl rfl rfl rfl
+  | vote x id =>
+    refine keep _ (fun s' hs => ?_)
+    unfold vote at hs
+    split at hs
+    · cases hs
+    · split at hs
+      · cases hs
+      · cases hs; exact qInv_of_fields h rfl rfl rfl rfl
+  | block dt => exact qInv_endBlock h dt
+  | setPeriods dp vp => exact qInv_of_fields h rfl rfl rfl rfl
+  | migrate f t sg =>
+    simp only [step]
+    cases hm : migrate cfg s f t sg with
+    | error e => exact h
+    | ok s' =>
+      have hto := target_without_staking_records hm
+      obtain ⟨hne, _, _, _, _, _, _, rfl⟩ := migrate_ok_inv hm
+      have hB : QInv (bankExecute cfg s f t) := qInv_of_fields h rfl rfl rfl rfl
+      exact qInv_of_fields (qInv_stakingExecute cfg cfg_queue.1 cfg_queue.2 hB f t hne ⟨hto.2.1, hto.2.2⟩) rfl rfl rfl rfl
+
+/-- **invariant of every history** (time queues) -/
+theorem qInv_run {s : State} (h : QInv s) (ops : List Op) : QInv (run cfg s ops) := by
+  induction ops generalizing s with
+  | nil => exact h
+  | cons op ops ih => exact ih (qInv_step h op)
+
+/-- a state with empty time queues satisfies the invariant -/
+theorem qInv_base (s : State) (h1 : s.ubdQ = []) (h2 : s.redQ = []) : QInv s := by
+  refine ⟨⟨?_, ?_⟩, ⟨?_, ?_⟩⟩ <;> simp [h1, h2]
+
+/-- **queues_rewritten** (time-queue slices) for every reachable state, without any hypothesis on the state in which
+the migration happens: after any history from a state with empty queues, an accepted migration leaves every slice of
+both queues equal to the old slice with the source renamed to the target, no slice names the source any more, and every
+element of every slice — those of the target included — still names a record with an entry completing at that time, so
+that the end blocker finds and completes it; the same holds after any further history. -/
+theorem queues_rewritten_time_slices_reachable {s0 : State} (h0 : QInv s0) (before : List Op) {s' : State}
+    {frm to : Addr} {sigOk : Bool} (h : migrate cfg (run cfg s0 before) frm to sigOk = .ok s') (later : List Op) :
+    (∀ t, get s'.ubdQ t = (get (run cfg s0 before).ubdQ t).map (List.map (renPair frm to))) ∧
+    (∀ t, get s'.redQ t = (get (run cfg s0 before).redQ t).map (List.map (renTriple frm to))) ∧
+    (∀ t sl, get s'.ubdQ t = some sl → ∀ x ∈ sl, x.1 ≠ frm) ∧
+    (∀ t sl, get s'.redQ t = some sl → ∀ x ∈ sl, x.1 ≠ frm) ∧
+    QInv s' ∧ QInv (run cfg s' later) := by
+  have hs := qInv_run h0 before
+  have hs' : QInv s' := by
+    have := qInv_step hs (.migrate frm to sigOk)
+    simpa [step, h] using this
+  have hq : ∀ t sl, get (run cfg s0 before).ubdQ t = some sl → ∀ x ∈ sl, x.1 = frm →
+      hasEntryAt (run cfg s0 before).ubds frm t := by
+    intro t sl hg x hx e
+    obtain ⟨es, hes, en, hen, het⟩ := hs.u.ann (t, sl) (get_some_mem _ _ _ hg) x hx
+    exact ⟨x.2, es, by rw [← e]; exact hes, en, hen, het⟩
+  have hr : ∀ t sl, get (run cfg s0 before).redQ t = some sl → ∀ x ∈ sl, x.1 = frm →
+      hasEntryAt (run cfg s0 before).reds frm t := by
+    intro t sl hg x hx e
+    obtain ⟨es, hes, en, hen, het⟩ := hs.r.ann (t, sl) (get_some_mem _ _ _ hg) x hx
+    exact ⟨x.2, es, by rw [← e]; exact hes, en, hen, het⟩
+  obtain ⟨a1, a2, a3, a4, _, _⟩ := queues_rewritten_no_stale_element h hq hr
+  exact ⟨a1, a2, a3, a4, hs', qInv_run hs' later⟩
 
 
 /-! ## never_reused -/
